@@ -1,5 +1,330 @@
-import PytezosModel.Michelson.Macros
-import PytezosModel.Michelson.MacroSem
+import PytezosModel.Proofs.C19Pair
+import PytezosModel.Proofs.C19Values
+/-! C19 — macro expansions have their specified Michelson meaning.
+
+`Impl.Macros.expandMacro` mirrors `expand_macro` of `src/pytezos/michelson/macros.py` (regex table, `prim_tags`,
+constants and function shapes re-extracted from the source on every run).  `Sem.eval ext` is the reference semantics
+of the instructions expansions are made of, for an arbitrary semantics `ext` of all other instructions (so user code
+passed to a macro is arbitrary).  `Spec.*` are the definitions of the Michelson reference.  Every theorem is about the
+expansion the mirror produces, for all stacks (equality of stack transformers), all annotations the code accepts, and
+all names of the family. -/
 namespace C19
-theorem placeholder : True := trivial
+open Impl.Macros Generated.C19 Spec Sem C19.Dispatch C19.Expand C19.Pair C19.Values
+
+/-! ### comparison, conditional and assertion macros -/
+
+theorem eval_op (ext : Ext) (op : List Char) (hop : op ∈ ops) (an : List String) :
+    eval ext (.prim (String.ofList op) [] an) = eval ext (prim0 (String.ofList op)) := by
+  simp only [ops, List.mem_cons, List.not_mem_nil, or_false] at hop
+  funext S
+  rcases hop with rfl | rfl | rfl | rfl | rfl | rfl <;> simp [eval, op0, prim0]
+
+theorem eval_COMPARE (ext : Ext) (an : List String) : eval ext (.prim "COMPARE" [] an) = compareStep := by
+  funext S; simp [eval, op0]
+
+/-- `CMP{EQ,…}` = `COMPARE ; {EQ,…}` -/
+theorem cmpx (op : List Char) (hop : op ∈ ops) (an : List String) (ext : Ext) :
+    ∃ m, expandMacro ("CMP".toList ++ op) an [] = .ok m ∧ eval ext m = eval ext (Spec.cmpx (String.ofList op)) := by
+  refine ⟨.seq [.prim "COMPARE" [] [], .prim (String.ofList op) [] an], ?_, ?_⟩
+  · simp only [ops, List.mem_cons, List.not_mem_nil, or_false] at hop
+    rcases hop with rfl | rfl | rfl | rfl | rfl | rfl <;> rfl
+  · simp only [Spec.cmpx, eval_seq, evalSeq_cons', eval_op ext op hop an]
+    rfl
+
+
+/-- a code argument makes `CMP{…}` an error (`assert not args`) -/
+theorem cmpx_rejects_args (op : List Char) (hop : op ∈ ops) (an : List String) (a : Mich) (args : List Mich) :
+    expandMacro ("CMP".toList ++ op) an (a :: args) = .error .assertion := by
+  simp only [ops, List.mem_cons, List.not_mem_nil, or_false] at hop
+  rcases hop with rfl | rfl | rfl | rfl | rfl | rfl <;> rfl
+
+/-- `IF{EQ,…} bt bf` = `{EQ,…} ; IF bt bf` -/
+theorem ifx (op : List Char) (hop : op ∈ ops) (an : List String) (bt bf : Mich) (ext : Ext) :
+    ∃ m, expandMacro ("IF".toList ++ op) an [bt, bf] = .ok m ∧
+      eval ext m = eval ext (Spec.ifx (String.ofList op) bt bf) := by
+  refine ⟨.seq [.prim (String.ofList op) [] an, .prim "IF" [bt, bf] []], ?_, ?_⟩
+  · simp only [ops, List.mem_cons, List.not_mem_nil, or_false] at hop
+    rcases hop with rfl | rfl | rfl | rfl | rfl | rfl <;> rfl
+  · simp only [Spec.ifx, eval_seq, evalSeq_cons', eval_op ext op hop an]
+
+/-- `IFCMP{EQ,…} bt bf` = `COMPARE ; {EQ,…} ; IF bt bf` -/
+theorem ifcmpx (op : List Char) (hop : op ∈ ops) (an : List String) (bt bf : Mich) (ext : Ext) :
+    ∃ m, expandMacro ("IFCMP".toList ++ op) an [bt, bf] = .ok m ∧
+      eval ext m = eval ext (Spec.ifcmpx (String.ofList op) bt bf) := by
+  refine ⟨.seq [.seq [.prim "COMPARE" [] [], .prim (String.ofList op) [] an], .prim "IF" [bt, bf] []], ?_, ?_⟩
+  · simp only [ops, List.mem_cons, List.not_mem_nil, or_false] at hop
+    rcases hop with rfl | rfl | rfl | rfl | rfl | rfl <;> rfl
+  · simp only [Spec.ifcmpx, eval_seq, evalSeq_cons', evalSeq_nil', seqF_ok_right, seqF_assoc, eval_op ext op hop an]
+    rfl
+
+/-- a wrong number of branches makes `IF{…}` an error (`assert len(args) == 2`) -/
+theorem ifx_rejects_one_branch (op : List Char) (hop : op ∈ ops) (an : List String) (a : Mich) :
+    expandMacro ("IF".toList ++ op) an [a] = .error .assertion := by
+  simp only [ops, List.mem_cons, List.not_mem_nil, or_false] at hop
+  rcases hop with rfl | rfl | rfl | rfl | rfl | rfl <;> rfl
+
+/-- `FAIL` = `UNIT ; FAILWITH` -/
+theorem fail (ext : Ext) :
+    ∃ m, expandMacro "FAIL".toList [] [] = .ok m ∧ eval ext m = eval ext Spec.FAIL := ⟨Spec.FAIL, rfl, rfl⟩
+
+/-- so `FAIL` fails with `Unit` on every stack -/
+theorem fail_meaning (ext : Ext) (S : Stack) : eval ext Spec.FAIL S = .failed .unit := by
+  simp [Spec.FAIL, prim0, eval, evalSeq, op0, unitStep, failwithStep]
+
+theorem fail_rejects_annots (a : String) (an : List String) :
+    expandMacro "FAIL".toList (a :: an) [] = .error .assertion := rfl
+
+/-- `ASSERT` = `IF {} {FAIL}` -/
+theorem assert_ (ext : Ext) :
+    ∃ m, expandMacro "ASSERT".toList [] [] = .ok m ∧ eval ext m = eval ext Spec.assert := ⟨.seq [Spec.assert], by rfl, by rw [eval_seq, evalSeq_one]⟩
+
+/-- `ASSERT_{EQ,…}` = `IF{EQ,…} {} {FAIL}` -/
+theorem assert_x (op : List Char) (hop : op ∈ ops) (ext : Ext) :
+    ∃ m, expandMacro ("ASSERT_".toList ++ op) [] [] = .ok m ∧ eval ext m = eval ext (Spec.assertX (String.ofList op)) := by
+  refine ⟨Spec.assertX (String.ofList op), ?_, rfl⟩
+  simp only [ops, List.mem_cons, List.not_mem_nil, or_false] at hop
+  rcases hop with rfl | rfl | rfl | rfl | rfl | rfl <;> rfl
+
+/-- `ASSERT_CMP{EQ,…}` = `IFCMP{EQ,…} {} {FAIL}` -/
+theorem assert_cmpx (op : List Char) (hop : op ∈ ops) (ext : Ext) :
+    ∃ m, expandMacro ("ASSERT_CMP".toList ++ op) [] [] = .ok m ∧
+      eval ext m = eval ext (Spec.assertCmpx (String.ofList op)) := by
+  refine ⟨.seq [.seq [.prim "COMPARE" [] [], .prim (String.ofList op) [] []],
+    .prim "IF" [.seq [], .seq [Spec.FAIL]] []], ?_, ?_⟩
+  · simp only [ops, List.mem_cons, List.not_mem_nil, or_false] at hop
+    rcases hop with rfl | rfl | rfl | rfl | rfl | rfl <;> rfl
+  · simp only [Spec.assertCmpx, Spec.ifcmpx, prim0, eval_seq, evalSeq_cons', evalSeq_nil', seqF_ok_right, seqF_assoc]
+
+/-- `ASSERT_NONE` = `IF_NONE {} {FAIL}` -/
+theorem assert_none (ext : Ext) :
+    ∃ m, expandMacro "ASSERT_NONE".toList [] [] = .ok m ∧ eval ext m = eval ext Spec.assertNone :=
+  ⟨.seq [Spec.assertNone], by rfl, by rw [eval_seq, evalSeq_one]⟩
+
+/-- `ASSERT_SOME @x` = `IF_NONE {FAIL} {RENAME @x}` -/
+theorem assert_some (an : List String) (ext : Ext) :
+    ∃ m, expandMacro "ASSERT_SOME".toList an [] = .ok m ∧ eval ext m = eval ext (Spec.assertSome an) :=
+  ⟨.seq [Spec.assertSome an], by rfl, by rw [eval_seq, evalSeq_one]⟩
+
+/-- `ASSERT_LEFT @x` = `IF_LEFT {RENAME @x} {FAIL}` -/
+theorem assert_left (an : List String) (ext : Ext) :
+    ∃ m, expandMacro "ASSERT_LEFT".toList an [] = .ok m ∧ eval ext m = eval ext (Spec.assertLeft an) :=
+  ⟨.seq [Spec.assertLeft an], by rfl, by rw [eval_seq, evalSeq_one]⟩
+
+/-- `ASSERT_RIGHT @x` = `IF_LEFT {FAIL} {RENAME @x}` -/
+theorem assert_right (an : List String) (ext : Ext) :
+    ∃ m, expandMacro "ASSERT_RIGHT".toList an [] = .ok m ∧ eval ext m = eval ext (Spec.assertRight an) :=
+  ⟨.seq [Spec.assertRight an], by rfl, by rw [eval_seq, evalSeq_one]⟩
+
+/-- `IF_SOME bt bf` = `IF_NONE bf bt` -/
+theorem if_some (bt bf : Mich) (ext : Ext) :
+    ∃ m, expandMacro "IF_SOME".toList [] [bt, bf] = .ok m ∧ eval ext m = eval ext (Spec.ifSome bt bf) :=
+  ⟨.seq [Spec.ifSome bt bf], by rfl, by rw [eval_seq, evalSeq_one]⟩
+
+/-- `IF_RIGHT bt bf` = `IF_LEFT bf bt` -/
+theorem if_right (bt bf : Mich) (ext : Ext) :
+    ∃ m, expandMacro "IF_RIGHT".toList [] [bt, bf] = .ok m ∧ eval ext m = eval ext (Spec.ifRight bt bf) :=
+  ⟨.seq [Spec.ifRight bt bf], by rfl, by rw [eval_seq, evalSeq_one]⟩
+
+/-- what that means: the first branch runs on `v : S` for `Some v`, the second on `S` for `None` -/
+theorem if_some_meaning (bt bf : Mich) (ext : Ext) :
+    eval ext (Spec.ifSome bt bf) = ifNone (eval ext bf) (eval ext bt) := by
+  funext S; simp [Spec.ifSome, eval]
+
+-- non-vacuity: the expansions are the ones test_macros.py lists, and they compute
+example : expandMacro "CMPLE".toList ["@c"] [] = .ok (.seq [.prim "COMPARE" [] [], .prim "LE" [] ["@c"]]) := rfl
+example : eval (fun _ _ _ _ => .err) (Spec.cmpx "LE") [.int 3, .int 5, .atom "x"] = .ok [.bool true, .atom "x"] := by
+  decide
+example : eval (fun _ _ _ _ => .err) Spec.assert [.bool false, .atom "x"] = .failed .unit := by decide
+example : eval (fun _ _ _ _ => .err) Spec.assertNone [.some (.atom "a"), .atom "x"] = .failed .unit := by decide
+example : eval (fun _ _ _ _ => .err) (Spec.assertSome ["@a"]) [.some (.atom "a"), .atom "x"] = .ok [.atom "a", .atom "x"] := by
+  decide
+
+
+/-! ### `DI…IP`, `DU…UP` -/
+
+theorem runHandler_dixp (recur : Recur) (g : List Char) (code : Mich) :
+    runHandler recur "expand_dixp" g [] [code] = .ok (dipN (.seq [code]) g.length) := rfl
+
+theorem runHandler_duxp (recur : Recur) (g : List Char) (an : List String) :
+    runHandler recur "expand_duxp" g an [] = .ok (.prim "DUP" [.int g.length] an) := rfl
+
+/-- `D I^n P code` (n ≥ 2) is `n` nested `DIP`s — the reference definition `DII+P code > DIP (DI+P code)` — and the
+same as the instruction `DIP n code` -/
+theorem dixp (n : Nat) (hn : 2 ≤ n) (code : Mich) (ext : Ext) :
+    ∃ m, expandMacro (dipName n) [] [code] = .ok m ∧ eval ext m = Spec.dixp n (eval ext code) ∧
+      eval ext m = eval ext (.prim "DIP" [.int n, code] []) := by
+  refine ⟨seqM (dipN (.seq [code]) n), ?_, ?_, ?_⟩
+  · rw [expandMacro, expand_step _ _ _ _ _ _ _ (dispatch_dip n hn) H11.2, H11.1, runHandler_dixp]
+    simp [Except.map]
+  · rw [eval_seqM, eval_dipN, eval_seq, evalSeq_one, dixp_eq_under]
+  · rw [eval_seqM, eval_dipN, eval_seq, evalSeq_one, eval_DIPn]
+
+theorem dixp_rejects_annots (n : Nat) (hn : 2 ≤ n) (a : String) (an : List String) (args : List Mich) :
+    expandMacro (dipName n) (a :: an) args = .error .assertion := by
+  rw [expandMacro, expand_step _ _ _ _ _ _ _ (dispatch_dip n hn) H11.2, H11.1]
+  rfl
+
+/-- `D U^n P` (n ≥ 2) follows the reference definition `DUU+P > DIP (DU+P) ; SWAP` and is the instruction `DUP n` -/
+theorem duxp (n : Nat) (hn : 2 ≤ n) (an : List String) (ext : Ext) :
+    ∃ m, expandMacro (dupName n) an [] = .ok m ∧ eval ext m = Spec.duxp n ∧
+      eval ext m = eval ext (.prim "DUP" [.int n] []) := by
+  refine ⟨.seq [.prim "DUP" [.int n] an], ?_, ?_, ?_⟩
+  · rw [expandMacro, expand_step _ _ _ _ _ _ _ (dispatch_dup n hn) H12.2, H12.1, runHandler_duxp]
+    simp [Except.map, seqM]
+  · rw [eval_seq, evalSeq_one, eval_DUPn, duxp_eq_dupN n (by omega)]
+  · rw [eval_seq, evalSeq_one, eval_DUPn, eval_DUPn]
+
+/-- value reading: the `n`-th element (1 = top) is copied to the top; shorter stacks are an error -/
+theorem duxp_value (n : Nat) (hn : 1 ≤ n) (S : Stack) :
+    Spec.duxp n S = match S[n - 1]? with
+      | some v => .ok (v :: S)
+      | none => .err := by
+  rw [duxp_eq_dupN n hn]
+  obtain ⟨k, rfl⟩ : ∃ k, n = k + 1 := ⟨n - 1, by omega⟩
+  cases h : S[k]? <;> simp [dupN, h]
+
+example : expandMacro (dipName 3) [] [.seq [.prim "DROP" [] []]] =
+    .ok (.seq [.prim "DIP" [.int 3, .seq [.seq [.prim "DROP" [] []]]] []]) := by rfl
+example : Spec.dixp 3 dropStep [.atom "a", .atom "b", .atom "c", .atom "d", .atom "e"] =
+    .ok [.atom "a", .atom "b", .atom "c", .atom "e"] := by decide
+example : Spec.duxp 3 [.atom "a", .atom "b", .atom "c", .atom "d"] =
+    .ok [.atom "c", .atom "a", .atom "b", .atom "c", .atom "d"] := by decide
+
+/-! ### `C[AD]+R`, `SET_C[AD]+R`, `MAP_C[AD]+R` -/
+
+/-- `C[AD]+R` with at least two letters (`CAR`/`CDR` are instructions) = `CAR`/`CDR` along the path, the reference
+definition `CA(rest)R > CAR ; C(rest)R`, `CD(rest)R > CDR ; C(rest)R` -/
+theorem cxr (p : Path) (hp : 2 ≤ p.length) (an : List String) (ext : Ext) :
+    ∃ m, expandMacro (cadrName p) an [] = .ok m ∧ eval ext m = Spec.cxr p := by
+  match p, hp with
+  | d :: e :: q, _ =>
+    obtain ⟨r, hr, hev⟩ := cxr_internal ext an (e :: q) (by simp) (cadrName (d :: e :: q)).length
+      (by simp [cadrName, pathChars])
+    have hr' : expand (cadrName (d :: e :: q)).length ('C' :: pathChars (e :: q) ++ ['R']) an [] true = .ok r := hr
+    cases d
+    · refine ⟨.seq (.prim "CAR" [] [] :: seqList r), ?_, ?_⟩
+      · rw [expandMacro, expand_step _ _ _ _ _ _ _ (dispatch_cadr_A (e :: q) (by simp)) H15.2, H15.1,
+          runHandler_caxr, hr']
+        rfl
+      · rw [eval_seq, evalSeq_cons', eval_CAR, hev]; rfl
+    · refine ⟨.seq (.prim "CDR" [] [] :: seqList r), ?_, ?_⟩
+      · rw [expandMacro, expand_step _ _ _ _ _ _ _ (dispatch_cadr_D (e :: q) (by simp)) H16.2, H16.1,
+          runHandler_cdxr, hr']
+        rfl
+      · rw [eval_seq, evalSeq_cons', eval_CDR, hev]; rfl
+
+/-- value reading: the component of the top element at the path; anything else is an error -/
+theorem cxr_value (p : Path) (hp : p ≠ []) (S : Stack) :
+    Spec.cxr p S = match S with
+      | v :: S' => (match getPath p v with
+        | some w => .ok (w :: S')
+        | none => .err)
+      | [] => .err := by
+  cases S with
+  | nil => exact cxr_nil p hp
+  | cons v S' => cases h : getPath p v <;> simp [Values.cxr_value, pushVal, h]
+
+example : expandMacro (cadrName [.A, .D, .D]) [] [] =
+    .ok (.seq [.prim "CAR" [] [], .prim "CDR" [] [], .prim "CDR" [] []]) := by rfl
+example : Spec.cxr [.A, .D] [.pair (.pair (.atom "x") (.atom "y")) (.atom "z"), .atom "s"] = .ok [.atom "y", .atom "s"] := by
+  decide
+
+/-- `SET_C[AD]+R` follows the reference definition (`SET_CAR > CDR ; SWAP ; PAIR`, `SET_CDR > CAR ; PAIR`,
+`SET_CA(rest)R > { DUP ; DIP { CAR ; SET_C(rest)R } ; CDR ; SWAP ; PAIR }`, …) -/
+theorem set_cxr (p : Path) (hp : 1 ≤ p.length) (an : List String) (ext : Ext) :
+    ∃ m, expandMacro (setName p) an [] = .ok m ∧ eval ext m = Spec.setCxr p := by
+  obtain ⟨m, hm, hev⟩ := set_internal ext p hp an ((setName p).length + 1) (by simp [setName, pathChars]; omega)
+  refine ⟨seqM m, ?_, by rw [eval_seqM, hev]⟩
+  -- internal and external calls differ only by the final `seq(res)`
+  obtain ⟨d, q, rfl⟩ : ∃ d q, p = d :: q := by cases p with | nil => simp at hp | cons d q => exact ⟨d, q, rfl⟩
+  have key : ∀ (h : Handler) (g : List Char), dispatch handlers (setName (d :: q)) = .ok (some (h, g)) →
+      h.shape = some 0 → expandMacro (setName (d :: q)) an [] = .ok (seqM m) := by
+    intro h g hd hs
+    rw [expand_step _ _ _ _ _ _ _ hd hs] at hm
+    rw [expandMacro, expand_step _ _ _ _ _ _ _ hd hs]
+    cases hrun : runHandler (fun p a r => expand (setName (d :: q)).length p a r true) h.func g an [] with
+    | error e => rw [hrun] at hm; cases hm
+    | ok res => rw [hrun] at hm; simp only [Except.map, if_true] at hm; cases hm; rfl
+  cases q with
+  | nil => cases d
+           · exact key _ _ dispatch_SET_CAR H19.2
+           · exact key _ _ dispatch_SET_CDR H20.2
+  | cons e q => cases d
+                · exact key _ _ (dispatch_set_A (e :: q) (by simp)) H21.2
+                · exact key _ _ (dispatch_set_D (e :: q) (by simp)) H22.2
+
+/-- value reading: exactly the addressed component of the top element is replaced by the second element -/
+theorem set_cxr_value (p : Path) (S : Stack) :
+    Spec.setCxr p S = match S with
+      | v :: x :: S' => (match setPath p v x with
+        | some v' => .ok (v' :: S')
+        | none => .err)
+      | _ => .err := by
+  match S with
+  | [] => exact setCxr_nil p
+  | [v] => exact setCxr_one p v
+  | v :: x :: S' => cases h : setPath p v x <;> simp [setCxr_value, pushVal, h]
+
+example : Spec.setCxr [.A, .D] [.pair (.pair (.atom "x") (.atom "y")) (.atom "z"), .atom "new", .atom "s"] =
+    .ok [.pair (.pair (.atom "x") (.atom "new")) (.atom "z"), .atom "s"] := by decide
+
+/-- `MAP_C[AD]+R code` follows the reference definition; in particular `MAP_CAR`'s code runs on `a : S` (the pair is
+not below it) while `MAP_CDR`'s code runs on `b : Pair a b : S`.  At most one field annotation is accepted. -/
+theorem map_cxr (p : Path) (hp : 1 ≤ p.length) (an : List String) (hA : (fieldAnnots an).length ≤ 1) (code : Mich)
+    (ext : Ext) :
+    ∃ m, expandMacro (mapName p) an [code] = .ok m ∧ eval ext m = Spec.mapCxr p (eval ext code) := by
+  obtain ⟨m, hm, hev⟩ := map_internal ext code p hp an hA ((mapName p).length + 1)
+    (by simp [mapName, pathChars]; omega)
+  refine ⟨seqM m, ?_, by rw [eval_seqM, hev]⟩
+  obtain ⟨d, q, rfl⟩ : ∃ d q, p = d :: q := by cases p with | nil => simp at hp | cons d q => exact ⟨d, q, rfl⟩
+  have key : ∀ (h : Handler) (g : List Char), dispatch handlers (mapName (d :: q)) = .ok (some (h, g)) →
+      h.shape = some 0 → expandMacro (mapName (d :: q)) an [code] = .ok (seqM m) := by
+    intro h g hd hs
+    rw [expand_step _ _ _ _ _ _ _ hd hs] at hm
+    rw [expandMacro, expand_step _ _ _ _ _ _ _ hd hs]
+    cases hrun : runHandler (fun p a r => expand (mapName (d :: q)).length p a r true) h.func g an [code] with
+    | error e => rw [hrun] at hm; cases hm
+    | ok res => rw [hrun] at hm; simp only [Except.map, if_true] at hm; cases hm; rfl
+  cases q with
+  | nil => cases d
+           · exact key _ _ dispatch_MAP_CAR H23.2
+           · exact key _ _ dispatch_MAP_CDR H24.2
+  | cons e q => cases d
+                · exact key _ _ (dispatch_map_A (e :: q) (by simp)) H25.2
+                · exact key _ _ (dispatch_map_D (e :: q) (by simp)) H26.2
+
+/-- two field annotations: `get_map_cxr_annots` asserts -/
+theorem map_car_rejects_two_field_annots (an : List String) (hA : 2 ≤ (fieldAnnots an).length) (args : List Mich) :
+    expandMacro (mapName [.A]) an args = .error .assertion := by
+  rw [expandMacro, expand_step _ _ _ _ _ _ _ dispatch_MAP_CAR H23.2, H23.1, runHandler_map_car, mapCxrAnnots_err an hA]
+  rfl
+
+/-- value reading for code that only rewrites the element it is given (`code (x : T) = f x : T` for every `T`):
+exactly the addressed component is replaced by its image -/
+theorem map_cxr_value (p : Path) (c : F) (f : Val → Val) (hc : Local c f) (v : Val) (S : Stack) :
+    Spec.mapCxr p c (v :: S) = match mapPath p f v with
+      | some v' => .ok (v' :: S)
+      | none => .err := by
+  rw [mapCxr_value p c f hc]; cases mapPath p f v <;> rfl
+
+/-- what the code sees: `MAP_CAR` gives it the component on top of the rest of the stack … -/
+theorem map_car_sees (c : F) (a b : Val) (S : Stack) :
+    Spec.mapCxr [.A] c (.pair a b :: S) = (c (a :: S)).bind fun T => pairStep (match T with
+      | a' :: T' => a' :: b :: T'
+      | [] => []) := by
+  simp only [mapCxr, seqF, dupStep, cdrStep, bind_ok, under, under_zero, carStep]
+  cases c (a :: S) with
+  | ok T => cases T <;> simp [swapStep, pairStep]
+  | failed v => rfl
+  | err => rfl
+
+/-- … while `MAP_CDR` gives it the component on top of the *original pair* -/
+theorem map_cdr_sees (c : F) (a b : Val) (S : Stack) :
+    Spec.mapCxr [.D] c (.pair a b :: S) = (c (b :: .pair a b :: S)).bind (swapStep ⨾ carStep ⨾ pairStep) := by
+  simp only [mapCxr, seqF, dupStep, cdrStep, bind_ok, bind_assoc]
+
+example : Spec.mapCxr [.A, .D] (fun S => match S with | x :: T => .ok (.some x :: T) | [] => .err)
+    [.pair (.pair (.atom "x") (.atom "y")) (.atom "z"), .atom "s"] =
+    .ok [.pair (.pair (.atom "x") (.some (.atom "y"))) (.atom "z"), .atom "s"] := by decide
+
 end C19
